@@ -167,6 +167,123 @@ theorem publish_keeps_views (s : NodeSt) (peer ident space topic msgIdent : Stri
     s'.remote = s.remote ∧ s'.streams = s.streams ∧ s'.pool = s.pool :=
   handlePublish_state s peer ident space topic msgIdent relayed idLenOk big
 
+/-! ## serving side: the three views, teardown -/
+
+/-- the serving-side invariant: the views agree and no empty record is kept -/
+def NodeSt.Inv (s : NodeSt) : Prop := s.Agree ∧ s.NoEmpty
+
+/-- an operation keeps the invariant -/
+def KeepsInv (op : NodeOp) : Prop := ∀ s : NodeSt, NodeSt.Inv s → NodeSt.Inv (s.step op)
+
+/-- **views_agree, full strength**: after every step of every operation sequence (subscribe /
+unsubscribe / publish / open / close / evict / revalidate / close-space / membership change) from an
+empty service, the space tries, the per-stream records and the stream tags describe one relation,
+and no empty record is kept. -/
+def C17_views_agree_full : Prop :=
+  ∀ (a b c : Nat) (ops : List NodeOp),
+    NodeSt.Inv (({ capSpace := a, capStream := b, burst := c } : NodeSt).run ops)
+
+/-- the invariant holds initially -/
+theorem views_agree_init (a b c : Nat) : NodeSt.Inv ({ capSpace := a, capStream := b, burst := c } : NodeSt) :=
+  ⟨Agree_empty a b c, NoEmpty_empty a b c⟩
+
+/-- steps proved to keep the invariant: opening a stream, -/
+theorem views_agree_open (sid : Nat) (peer ident : String) : KeepsInv (.openStream sid peer ident) := by
+  intro s h
+  simp only [NodeSt.step]
+  split
+  · exact h
+  · rename_i hf
+    have hf' : s.poolStream sid = none := by simpa using hf
+    exact ⟨Agree_openStream h.1 sid peer ident hf', NoEmpty_congr (s := s) rfl rfl h.2⟩
+
+/-- … handling a publish (accepted or rejected, relayed or not), -/
+theorem views_agree_publish (peer ident space topic msgIdent : String) (relayed idLenOk big : Bool) :
+    KeepsInv (.publish peer ident space topic msgIdent relayed idLenOk big) := by
+  intro s h
+  obtain ⟨h1, h2, h3⟩ := handlePublish_state s peer ident space topic msgIdent relayed idLenOk big
+  exact ⟨Agree_congr h1 h2 h3 h.1, NoEmpty_congr h1 h2 h.2⟩
+
+/-- … and a membership change (interest is only dropped by an explicit evict / revalidate). -/
+theorem views_agree_setMember (space acct : String) (v : Bool) : KeepsInv (.setMember space acct v) := by
+  intro s h
+  exact ⟨Agree_congr (s := s) rfl rfl rfl h.1, NoEmpty_congr (s := s) rfl rfl h.2⟩
+
+/-- **views_agree_partial.** The full statement follows by induction over the history from the
+per-step obligations. NAMED GAP: `KeepsInv` is proved above for open / publish / membership change;
+for subscribe, unsubscribe, stream close, evict, revalidate and close-space it is a hypothesis here
+(their model functions are folds over pattern lists; the per-step agreement of exactly these
+handlers is what the harness checks on the real code and on the model after every operation). -/
+theorem views_agree_partial
+    (hsub : ∀ sid peer ident space topics, KeepsInv (.subscribe sid peer ident space topics))
+    (hunsub : ∀ sid space topics, KeepsInv (.unsubscribe sid space topics))
+    (hclose : ∀ sid, KeepsInv (.closeStream sid))
+    (hevict : ∀ space acct, KeepsInv (.evict space acct))
+    (hreval : ∀ space, KeepsInv (.revalidate space))
+    (hcs : ∀ space, KeepsInv (.closeSpace space)) : C17_views_agree_full := by
+  intro a b c ops
+  have hstep : ∀ op, KeepsInv op := by
+    intro op
+    cases op with
+    | openStream sid peer ident => exact views_agree_open sid peer ident
+    | subscribe sid peer ident space topics => exact hsub sid peer ident space topics
+    | unsubscribe sid space topics => exact hunsub sid space topics
+    | publish peer ident space topic msgIdent relayed idLenOk big =>
+      exact views_agree_publish peer ident space topic msgIdent relayed idLenOk big
+    | closeStream sid => exact hclose sid
+    | evict space acct => exact hevict space acct
+    | revalidate space => exact hreval space
+    | closeSpace space => exact hcs space
+    | setMember space acct v => exact views_agree_setMember space acct v
+  have : ∀ (ops : List NodeOp) (s : NodeSt), NodeSt.Inv s → NodeSt.Inv (s.run ops) := by
+    intro ops
+    induction ops with
+    | nil => intro s h; exact h
+    | cons op rest ih => intro s h; exact ih _ (hstep op s h)
+  exact this ops _ (views_agree_init a b c)
+
+/-- **teardown_empties, full strength**: in every reachable state in which no interest is registered
+any more — everything was unsubscribed, evicted, its space closed or its stream closed, in any
+order — all three views are empty. -/
+def C17_teardown_full : Prop :=
+  ∀ (a b c : Nat) (ops : List NodeOp),
+    let s := ({ capSpace := a, capStream := b, burst := c } : NodeSt).run ops
+    (∀ sid sp p, ¬ s.Reg sid sp p) → s.Clean
+
+/-- **teardown_empties_partial.** In any state satisfying the invariant, "nothing registered"
+implies "all bookkeeping empty"; in particular once every stream is closed. The hypothesis is the
+invariant (gap: see `views_agree_partial`). -/
+theorem teardown_empties_partial (s : NodeSt) (h : NodeSt.Inv s) :
+    ((∀ sid sp p, ¬ s.Reg sid sp p) → s.Clean) ∧ (s.pool = [] → s.Clean) := by
+  refine ⟨clean_of_no_reg h.1 h.2, fun hp => clean_of_no_reg h.1 h.2 ?_⟩
+  intro sid sp p hreg
+  obtain ⟨st, hst, _⟩ := h.1.inPool sid sp p hreg
+  simp [hp] at hst
+
+theorem teardown_of_views (hv : C17_views_agree_full) : C17_teardown_full := by
+  intro a b c ops
+  exact (teardown_empties_partial _ (hv a b c ops)).1
+
+/-- the three witness histories of F-pubsub-empty-sub end clean in the model of the repaired code
+(on the unrepaired code the first leaves `remote[s2]`, the second `streams[1]`, see the notes) -/
+def witnessW1 : List NodeOp :=
+  [.setMember "s1" "A0" true, .setMember "s2" "A0" true, .openStream 1 "P0" "A0",
+   .subscribe 1 "P0" "A0" "s1" ["a"], .subscribe 1 "P0" "A0" "s2" [], .unsubscribe 1 "s1" ["a"],
+   .closeStream 1]
+def witnessW2 : List NodeOp :=
+  [.setMember "s1" "A1" true, .openStream 1 "P1" "A1", .closeStream 1, .subscribe 1 "P1" "A1" "s1" []]
+def witnessW3 : List NodeOp :=
+  [.setMember "s1" "A2" true, .setMember "s2" "A2" true, .openStream 1 "P2" "A2",
+   .subscribe 1 "P2" "A2" "s1" ["a", "b", "a/b"], .subscribe 1 "P2" "A2" "s2" ["a"],
+   .subscribe 1 "P2" "A2" "s2" ["b"], .unsubscribe 1 "s2" ["a"], .subscribe 1 "P2" "A2" "s2" [],
+   .closeSpace "s1", .evict "s2" "A2"]
+
+theorem witnesses_end_clean :
+    (({ capSpace := 3, capStream := 4, burst := 4 } : NodeSt).run witnessW1).cleanB = true ∧
+    (({ capSpace := 3, capStream := 4, burst := 4 } : NodeSt).run witnessW2).cleanB = true ∧
+    (({ capSpace := 3, capStream := 4, burst := 4 } : NodeSt).run witnessW3).cleanB = true := by
+  decide
+
 /-! ## client receive path -/
 
 /-- **client_filters.** A received publish runs handlers exactly when the acceptance condition holds
